@@ -20,6 +20,48 @@ class TermInterp(Interp):
         self.fail = []
         self.ws = WS(self.ts)
         self.word_mode = False          # pack four byte leaves into a 32-bit word leaf (hash functions)
+        # memcpy between a scalar and a byte array is a reinterpretation (the portable spelling of *(u32_t *)p)
+        plain = self.models.get('memcpy')
+
+        def m_memcpy_scalar(I, st, fr, n, this, args, an):
+            r = I._memcpy_reinterpret(st, args, n)
+            if r is not None:
+                return r
+            return plain(I, st, fr, n, this, args, an) if plain is not None else None
+        self.models = dict(self.models)
+        self.models['memcpy'] = m_memcpy_scalar
+
+    def _memcpy_reinterpret(self, st, args, n):
+        dst, src, cnt = args[0], args[1], args[2]
+        if cnt[0] != 'c' or cnt[1] not in (2, 4, 8) or dst[0] != 'p' or src[0] != 'p':
+            return None
+        k = cnt[1]
+
+        def scalar(p):
+            return (not p[2]) or isinstance(p[2][-1], str)
+
+        def bytes_at(p):
+            return bool(p[2]) and isinstance(p[2][-1], int)
+        if scalar(dst) and bytes_at(src):
+            vals = [self.load(st, (src[1], src[2][:-1] + (src[2][-1] + i,))) for i in range(k)]
+            ids = [self.tid(v) if v is not None and v[0] in ('tb', 'c') else None for v in vals]
+            if any(i is None for i in ids):
+                return None
+            self.emit('memcpy', st, node=n, dst=dst, src=src, size=cnt)
+            self.store(st, (dst[1], dst[2]), self.pack(tuple(ids)), node=n)
+            return [(st, dst)]
+        if bytes_at(dst) and scalar(src):
+            v = self.load(st, (src[1], src[2]))
+            if v is not None and v[0] == 'tw':
+                return None
+            bv = self.to_bv(v, k) if v is not None and v[0] in ('bv', 'tb', 'c') else None
+            if bv is None:
+                return None
+            self.emit('memcpy', st, node=n, dst=dst, src=src, size=cnt)
+            for i in range(k):
+                self.store(st, (dst[1], dst[2][:-1] + (dst[2][-1] + i,)), self.tbv(bv[i]), node=n)
+            return [(st, dst)]
+        return None
 
     def bad(self, node, what):
         self.fail.append((what, nloc(node) if isinstance(node, dict) else str(node)))
